@@ -181,6 +181,54 @@ def block_once_programs(tier, seed, start):
     return ps, i
 
 
+def reeval_programs(tier, seed, start):
+    """ONE textual call site evaluated three times (a function holding the macro, called with different symbolic inputs): every evaluation runs
+    every user expression exactly once and yields the closed form for ITS inputs - nothing is remembered from an earlier evaluation"""
+    from .profiles import KINDS
+    ps = []
+    i = start
+    kinds = ["join", "try_join", "join_spawn", "try_join_spawn", "join_async", "try_join_async", "join_async_spawn", "try_join_async_spawn"]
+    for k, macro in enumerate(kinds):
+        i += 1
+        if tier == "quick" and (k + seed) % 2:
+            continue
+        pid = "p%04d" % i
+        is_async, is_try, is_spawn = KINDS[macro]
+        fn = "site_%s" % pid
+        el = "Result<u8, u8>" if is_try else "u8"
+        rty = "Result<(u8, u8), u8>" if is_try else "(u8, u8)"
+        w = (lambda o_, x: "mk(%s, %s)" % (o_, x)) if is_try else (lambda o_, x: x)
+        if is_async:
+            s1 = "~|> move |r: %s| { ev(e + 2); %s }" % (el, "r.map(|v| v ^ q)" if is_try else "r ^ q")
+            body = "%s! { (move || { ev(e); ready(%s) })(), { ev(e + 1); ready(%s) } %s }" % (macro, w("o0", "x"), w("o1", "y"), s1)
+            items = "fn %s(x: u8, y: u8, q: u8, o0: bool, o1: bool, e: usize) -> %s { let mut fut = %s; match poll_once(&mut fut) { Poll::Ready(r) => r, Poll::Pending => { vassert!(false, \"C10[%s]: ready futures complete with one poll\"); loop {} } } }" % (fn, rty, body, pid)
+        else:
+            s1 = "~|> move |v: u8| { ev(e + 2); v ^ q }" if is_try else "~-> move |v: u8| { ev(e + 2); v ^ q }"
+            body = "%s! { (move || { ev(e); %s })(), { ev(e + 1); %s } %s }" % (macro, w("o0", "x"), w("o1", "y"), s1)
+            items = "fn %s(x: u8, y: u8, q: u8, o0: bool, o1: bool, e: usize) -> %s { %s }" % (fn, rty, body)
+        msg = lambda t: "\"C10[%s]: %s\"" % (pid, t)
+        L = ["names_off();" if is_spawn and not is_async else ""]
+        for r_ in range(3):
+            L.append("let x%d = u(); let y%d = u(); let q%d = u(); let oa%d = %s; let ob%d = %s;" % (r_, r_, r_, r_, "b()" if is_try else "true", r_, "b()" if is_try else "true"))
+            L.append("let r%d = %s(x%d, y%d, q%d, oa%d, ob%d, %d);" % (r_, fn, r_, r_, r_, r_, r_, 1 + 3 * r_))
+            if is_try:
+                exp = "if !oa%d { Err(x%d) } else if !ob%d { Err(y%d) } else { Ok((x%d, y%d ^ q%d)) }" % (r_, r_, r_, r_, r_, r_, r_)
+                if is_async:
+                    L.append("vassert!(r%d == (%s) || (!oa%d && !ob%d && r%d == Err(y%d)), %s);" % (r_, exp, r_, r_, r_, r_, msg("evaluation %d of the call site yields the closed form for its own inputs" % r_)))
+                else:
+                    L.append("vassert!(r%d == (%s), %s);" % (r_, exp, msg("evaluation %d of the call site yields the closed form for its own inputs" % r_)))
+                L.append("vassert!(cnt(%d) <= 1 && cnt(%d) <= 1 && cnt(%d) == (oa%d && ob%d) as u8, %s);" % (1 + 3 * r_, 2 + 3 * r_, 3 + 3 * r_, r_, r_, msg("every expression of evaluation %d runs at most once, the second step exactly once iff the first succeeded" % r_)))
+                if not is_async:
+                    L.append("vassert!(cnt(%d) == 1 && cnt(%d) == 1, %s);" % (1 + 3 * r_, 2 + 3 * r_, msg("both initial expressions of evaluation %d ran once" % r_)))
+            else:
+                L.append("vassert!(r%d == (x%d, y%d ^ q%d), %s);" % (r_, r_, r_, r_, msg("evaluation %d of the call site yields the closed form for its own inputs" % r_)))
+                L.append("vassert!(cnt(%d) == 1 && cnt(%d) == 1 && cnt(%d) == 1, %s);" % (1 + 3 * r_, 2 + 3 * r_, 3 + 3 * r_, msg("every expression runs exactly once per macro evaluation (evaluation %d)" % r_)))
+        L.append("vcover!(true, \"end reached\");")
+        ps.append(Program(pid, body + "   [inside fn %s, called three times]" % fn, "    " + "\n    ".join(l for l in L if l), items=items, desc=dict(macro=macro, evaluations=3, call_site="one function body"),
+                          group="re-evaluation", role=dict(kind=macro), unwind=64 if not is_async else 12, solo=True, weight=4))
+    return ps, i
+
+
 def programs(tier, seed):
     ps = []
     a, i = op_programs(tier, seed, 0)
@@ -190,6 +238,8 @@ def programs(tier, seed):
     a, i = count_programs(tier, seed, i)
     ps += a
     a, i = block_once_programs(tier, seed, i)
+    ps += a
+    a, i = reeval_programs(tier, seed, 3000)
     ps += a
     if tier == "thorough":
         # measured (thorough run of this tier): with move-only payloads these do not finish within 1200 s / 12 GB -
